@@ -68,6 +68,8 @@ def install_contract():
     from pysmt.solvers.eager import EagerModel
 
     def result_is_constant_of_same_type(self, formula, result):
+        if M.SUSPENDED[0]:
+            return True      # an ill-sorted model handed in by the harness
         M._count('get_value_contract')
         try:
             t1 = B.typeof(B.describe(formula))
@@ -394,6 +396,29 @@ def after_failure_cases(ck, rep, rng, n):
             rep.count('evaluation_did_not_fail')
         except Exception:
             rep.count('failing_evaluations')
+        # a second way to fail half-way: a model that gives one symbol a
+        # value of the wrong sort
+        try:
+            from pysmt.solvers.eager import EagerModel
+            fb_ = B.build(b, env)
+            fv_ = sorted(fb_.get_free_variables(),
+                         key=lambda s_: s_.symbol_name())
+            if len(fv_) >= 2:
+                asg = dict(m1.assignment) if hasattr(m1, 'assignment') \
+                    else {}
+                mg_ = env.formula_manager
+                asg[fv_[-1]] = mg_.String('oops') if not \
+                    fv_[-1].symbol_type().is_string_type() else mg_.Int(1)
+                M.SUSPENDED[0] = True
+                try:
+                    EagerModel(asg, env).get_value(fb_)
+                    rep.count('evaluation_did_not_fail')
+                except Exception:
+                    rep.count('failing_evaluations')
+                finally:
+                    M.SUSPENDED[0] = False
+        except Exception:
+            pass
         # the same and related formulas under another model
         subs = [s for s in B.subterms(b) if s[2]][:3]
         for b2 in [b] + subs:
